@@ -315,7 +315,8 @@ def lc_cases(draw, tier="quick"):
     pd = draw(st.sampled_from([1, 1, 2]))
     n = draw(st.integers(2, 14 if tier == "quick" else 40)) if pd == 1 else draw(st.integers(2, 4 if tier == "quick" else 6))
     dim = n if pd == 1 else n * n
-    bc = draw(st.sampled_from(["zero", "periodic", "neumann"]))
+    # every boundary condition of the first-order difference operator (1-D: also 'backward' and 'none')
+    bc = draw(st.sampled_from(["zero", "periodic", "neumann"] + (["backward", "none"] if pd == 1 else [])))
     fam = draw(st.sampled_from(["LMRF", "CMRF"]))
     fl = st.floats(-3, 3, allow_nan=False, allow_subnormal=False, width=64)
     loc_kind = draw(st.sampled_from(["zero", "scalar", "vector"]))
